@@ -487,7 +487,6 @@ impl TransformerContext {
         crate::verif::sched_point("update_element");
         if let Some(id) = el.get_attr("id") {
             let id = eval_attr(&id, self).unwrap_or(id);
-            self.pending_ids.remove(&id);
             if self.elem_map.insert(id.clone(), el.clone()).is_none() {
                 self.original_map.insert(id, el.clone());
             }
